@@ -55,6 +55,60 @@ impl DeepFinder {
         Ok(values)
     }
 
+    /// Find raw value for specific key, but only in top-level dictionaries (nested dictionaries
+    /// are not searched).
+    ///
+    /// # Example
+    /// ```
+    /// use rdest::DeepFinder;
+    ///
+    /// let val = DeepFinder::find_top_level("1:k", b"d1:ad1:ki1ee1:ki2ee").unwrap();
+    /// assert_eq!(val, b"i2e".to_vec());
+    /// ```
+    pub fn find_top_level(key: &str, arg: &[u8]) -> Option<Vec<u8>> {
+        let mut it = arg.iter().enumerate();
+        while let Some((pos, b)) = it.next() {
+            match b.into() {
+                Delimiter::Dict => {
+                    if let Some(val) = Self::find_in_dict(&mut it, key.as_bytes())? {
+                        return Some(val);
+                    }
+                }
+                Delimiter::End => return None,
+                _ => {
+                    Self::extract_dict_raw_value(&mut it, b, pos).ok()?;
+                }
+            }
+        }
+
+        None
+    }
+
+    fn find_in_dict(it: &mut Enumerate<Iter<u8>>, key: &[u8]) -> Option<Option<Vec<u8>>> {
+        let mut found_key = false;
+        let mut key_turn = true;
+        while let Some((pos, b)) = it.next() {
+            if key_turn {
+                match b.into() {
+                    Delimiter::Num => {
+                        found_key = &*Self::raw_byte_str(it, pos, b, true).ok()? == key
+                    }
+                    Delimiter::End => return Some(None),
+                    _ => return None,
+                }
+            } else {
+                let val = Self::extract_dict_raw_value(it, b, pos).ok()?;
+                if found_key {
+                    return Some(Some(val));
+                }
+            }
+
+            key_turn = !key_turn;
+        }
+
+        None
+    }
+
     fn raw_int(it: &mut Enumerate<Iter<u8>>, pos: usize, extract: bool) -> Result<Vec<u8>, Error> {
         let val = BDecoder::parse_int(it, pos)?.1;
         match extract {
